@@ -83,6 +83,10 @@ type flushState struct {
 	// write) — e.g. connector.Source's deferred plugin-ack under Approach A,
 	// see source.go's Ack — needs this one. This is what callbackWg tracked.
 	callbacksDone chan struct{}
+	// prev is the flush that preceded this one; callbacksDone of this flush
+	// does not close before prev's has (see flushNow). Cleared once waited
+	// for, so finished flushes do not pile up in memory.
+	prev *flushState
 }
 
 // clock abstracts the two time operations the persister needs in order to
@@ -359,6 +363,7 @@ func (p *Persister) triggerFlush(ctx context.Context) {
 	st := &flushState{
 		writeDone:     make(chan struct{}),
 		callbacksDone: make(chan struct{}),
+		prev:          p.flush,
 	}
 	p.flush = st
 	go p.flushNow(ctx, batch, st)
@@ -413,6 +418,17 @@ func (p *Persister) flushNow(ctx context.Context, batch map[string]persistData, 
 	}
 	go func() {
 		cbWg.Wait()
+		// triggerFlush only waits for the previous flush's WRITE before it
+		// starts this one, so callbacks of the previous flush (each runs in
+		// its own goroutine) can still be running. WaitPendingWrites looks at
+		// the newest flush only: it must not report "everything delivered"
+		// while an older callback - a source's deferred plugin ack - is still
+		// on its way, or Teardown closes the ack queue under it and the
+		// plugin is torn down without the ack.
+		if st.prev != nil {
+			<-st.prev.callbacksDone
+			st.prev = nil
+		}
 		close(st.callbacksDone)
 	}()
 
